@@ -22,7 +22,7 @@ CHECKS = {
    note="Lean kernel + standard axioms; base store = sorted map (C18 correspondence); sync.Mutex semantics; SigUnique hypothesis; multi-node agreement is the theorem c02_agree plus C01/C10 validity, real multi-node runs are exercised under C05.",
    technique="Lean 4 proof (invariant by induction over op sequences; agreement by induction on rounds) + regenerated lock facts + differential correspondence"),
  "C05": dict(engine="net", design="§3 C05 (partial, §6)",
-   text="PARTIAL. Lean theorems over a message-level model of the beacon loop (n nodes {up, head, clock, lastTick, partial cache, sleeping catch-up goroutines, sync target}, a connectivity relation, a multiset of partials in flight; rules tick/fire/recv/aggregate/pull/stop/restart mirror Handler.run, broadcastNextPartial, ProcessPartialBeacon, runAggregator, tryAppend/shouldSync, SyncManager admission and Catchup, with every comparison regenerated from the Go source and used by the model), for arbitrary n, thr and arbitrary prior state: in a fair sub-round (every running node's timer event happens once, every message between connected running nodes is delivered) a closed, pairwise connected set U of >= thr running nodes whose heads all equal h below the current round all store h+1 (c05_step_progress, under the explicit hypothesis that no partial above h+1 is in play for U); after a heal every member of U reaches the largest head of U within one fair round by the sync rule (c05_level); from a levelled state c-h rounds behind, the tick sub-round plus c-h-1 catch-up sub-rounds bring every member to exactly c, one round per sub-round (c05_catchup); a restarted node syncs to the common head and its partial is counted in the next round, and is needed when |U| = thr (c05_rejoin, c05_rejoin_needed); heads never decrease and every append is head+1 (c05_heads_monotone, c05_no_skip, tied to C02's store theorem); with fewer than thr possible signers no head ever passes the current maximum under ANY schedule of events without a restart (c05_below_threshold_no_progress). What is NOT proved: real timers, goroutine scheduling, channel capacities, the 2-period sync-restart rule, gRPC, and that the Go code refines the model. Those are sampled: 2-7 REAL beacon.Handlers in one process over an in-memory ProtocolClient with scripted partitions / cut and slow links / stops / restarts and lock-step fake clocks; oracle P5 (gap-free equal valid chains, every due round while >= thr connected, catch-up within rounds-behind x CatchupPeriod + budget, no beacon below threshold) is evaluated on the logged heads, and every logged head vector is validated against the model's fair run and step envelope by the Lean driver.",
+   text="PARTIAL. Lean theorems over a message-level model of the beacon loop (n nodes {up, head, clock, lastTick, partial cache, sleeping catch-up goroutines, sync target}, a connectivity relation, a multiset of partials in flight; rules tick/fire/recv/aggregate/pull/stop/restart mirror Handler.run, broadcastNextPartial, ProcessPartialBeacon, runAggregator, tryAppend/shouldSync, SyncManager admission and Catchup, with every comparison regenerated from the Go source and used by the model), for arbitrary n, thr and arbitrary prior state: in a fair sub-round (every running node's timer event happens once, every message between connected running nodes is delivered) a closed, pairwise connected set U of >= thr running nodes whose heads all equal h below the current round all store h+1 (c05_step_progress, under the explicit hypothesis that no partial above h+1 is in play for U, which c05_quiet_of_heads proves for every reachable state in which no node is ahead of U); after a heal every member of U reaches the largest head of U within one fair round by the sync rule (c05_level); from a levelled state c-h rounds behind, the tick sub-round plus c-h-1 catch-up sub-rounds bring every member to exactly c, one round per sub-round (c05_catchup); a restarted node syncs to the common head and its partial is counted in the next round, and is needed when |U| = thr (c05_rejoin, c05_rejoin_needed); heads never decrease and every append is head+1 (c05_heads_monotone, c05_no_skip, tied to C02's store theorem); with fewer than thr possible signers no head ever passes the current maximum under ANY schedule of events without a restart (c05_below_threshold_no_progress). What is NOT proved: real timers, goroutine scheduling, channel capacities, the 2-period sync-restart rule, gRPC, and that the Go code refines the model. Those are sampled: 2-7 REAL beacon.Handlers in one process over an in-memory ProtocolClient with scripted partitions / cut and slow links / stops / restarts and lock-step fake clocks; oracle P5 (gap-free equal valid chains, every due round while >= thr connected, catch-up within rounds-behind x CatchupPeriod + budget, no beacon below threshold) is evaluated on the logged heads, and every logged head vector is validated against the model's fair run and step envelope by the Lean driver.",
    note="Lean kernel + standard axioms for the model theorems; fair-round abstraction (partial synchrony after heal) is an assumption, not a theorem about the Go runtime; ideal crypto in the model (RecoverSpec); go2lean netrules extractor; harness engine 'net' with bounded polling waits, failing scripts retried twice, flake rate reported in evidence; conformance of sampled traces, not equivalence.",
    technique="Lean 4 proof over a message-level protocol model (fold invariants, counting of distinct signers) + regenerated guards used by the model + real multi-node differential runs with trace validation by the Lean driver"),
 }
